@@ -1140,6 +1140,21 @@ static bool _scroll(TickitWindow *win, const TickitRect *origrect, int downward,
   if(!tickit_rect_intersect(&rect, &selfrect, origrect))
     return false;
 
+  /* Only what lies within every ancestor can be on the terminal: clip to
+   * each ancestor's bounds, expressed in this window's coordinates */
+  {
+    int top = 0, left = 0;
+    for(TickitWindow *w = win; w->parent; w = w->parent) {
+      top  += w->rect.top;
+      left += w->rect.left;
+
+      TickitRect bounds = { .top = -top, .left = -left,
+        .lines = w->parent->rect.lines, .cols = w->parent->rect.cols };
+      if(!tickit_rect_intersect(&rect, &rect, &bounds))
+        return false;
+    }
+  }
+
   DEBUG_LOGF("Ws", "Scroll " RECT_PRINTF_FMT " by %+d,%+d",
     RECT_PRINTF_ARGS(rect), rightward, downward);
 
